@@ -66,6 +66,16 @@ def make_font(rng, lib, color=False, dotted=False):
                               classes=["identity", "scale", "shear", "mirror_x", "general_small"])
     for i, g in enumerate(desc["glyphs"]):
         g["unicodes"] = [0x61 + i]
+    # always one composite whose FIRST component is itself a composite and whose LAST one is a plain glyph (and the mirror image)
+    composites = [g["name"] for g in desc["glyphs"] if g["components"]]
+    plains = [g["name"] for g in desc["glyphs"] if not g["components"] and g["contours"]]
+    if composites and plains:
+        one = (Fr(1), Fr(0), Fr(0), Fr(1))
+        c, q = rng.choice(composites), rng.choice(plains)
+        desc["glyphs"].append({"name": "nested.first", "unicodes": [], "width": Fr(600), "contours": [], "anchors": [],
+                               "components": [(c, one + (Fr(10), Fr(0))), (q, one + (Fr(300), Fr(20)))]})
+        desc["glyphs"].append({"name": "nested.last", "unicodes": [], "width": Fr(600), "contours": [], "anchors": [],
+                               "components": [(q, one + (Fr(0), Fr(-5))), (c, one + (Fr(250), Fr(0)))]})
     # font-level metrics differ from font to font (a filter must not remember them)
     desc["info"] = {"capHeight": rng.choice([700, 600, 650, 720, 0]), "xHeight": rng.choice([500, 450, 520, 380]),
                     "ascender": rng.choice([800, 750]), "descender": rng.choice([-200, -250]), "unitsPerEm": rng.choice([1000, 2048])}
@@ -117,7 +127,7 @@ def explore(ctx):
         names = [g["name"] for g in desc["glyphs"]]
         if args == "skip":
             args = ([n for n in names if rng.random() < 0.4] or names[:1],)
-        inc_kind = rng.choice(["all", "all", "include", "exclude", "predicate"])
+        inc_kind = ["all", "include", "all", "exclude", "predicate", "all", "include"][(i // len(flist)) % 7]
         kw = dict(kwargs)
         if "Origin" in kw and kw["Origin"] is None:
             kw["Origin"] = rng.randint(0, 4)
@@ -128,15 +138,15 @@ def explore(ctx):
         elif inc_kind == "exclude":
             kw["exclude"] = list(sub); included = set(names) - set(sub)
         elif inc_kind == "predicate":
-            kw["include"] = lambda g: len(g) > 0
-        case = {"filter": fname, "args": jsonable(args), "kwargs": {k: (v if not callable(v) else "lambda g: len(g) > 0") for k, v in kw.items()},
+            kw["include"] = lambda g: len(g) > 0 or len(g.components) > 1
+        case = {"filter": fname, "args": jsonable(args), "kwargs": {k: (v if not callable(v) else "lambda g: len(g) > 0 or len(g.components) > 1") for k, v in kw.items()},
                 "font": jsonable(desc), "lib": lib}
         try:
             filt = cls(*args, **kw)
             src0 = snap.font_snapshot(font)
             gset = _GlyphSet.from_layer(font, copy=True)
             if inc_kind == "predicate":
-                included = {n for n in gset if len(gset[n]) > 0}
+                included = {n for n in gset if len(gset[n]) > 0 or len(gset[n].components) > 1}
             before = snap.glyphset_snapshot(gset)
             before_geo = geom.snapshot_glyphset(gset)
             modified = set(filt(font, gset))
